@@ -201,6 +201,12 @@ func Minters(r *rand.Rand, denom string, maxExp int) MinterConfig {
 			cur = *end
 		}
 	}
+	// a genesis file may leave the start time out altogether (zero time, year 1). With a
+	// no-minting first period that describes the same emission.
+	if mc.Schedule.Periods[0].Kind == model.NoMinting && len(mc.Schedule.Periods) > 1 && r.Intn(4) == 0 {
+		mc.Params.StartTime = time.Time{}
+		mc.Schedule.Start = time.Time{}
+	}
 	// the rule for ids is "first > 0, then consecutive": one configuration in eight does not start at 1
 	mc.FirstID = 1
 	if r.Intn(8) == 0 {
